@@ -73,9 +73,15 @@ Proof.
   - discriminate.
   - lia.
   - vm_compute. discriminate.
-  - assert (k = 12).
-    { vm_compute in K2. vm_compute in K3.
-      do 14 (destruct k as [|k]; [try (vm_compute in K3; discriminate); try lia|]); try lia. }
+  - assert (E : get_eos 4096 (Some (lookup_lex [long_word])) long_text = 36%Z) by (vm_compute; reflexivity).
+    assert (L : length long_text = 13) by reflexivity.
+    rewrite E in K3. rewrite L in K2.
+    assert (k = 12).
+    { assert (E12 : blen (firstn 12 long_text) = 36) by (vm_compute; reflexivity).
+      assert (Hb : blen (firstn k long_text) = blen (firstn 12 long_text)) by lia.
+      pose proof (prefix_blen_inj (firstn k long_text) (firstn 12 long_text) (skipn k long_text) (skipn 12 long_text)) as Hinj.
+      rewrite !firstn_skipn in Hinj. specialize (Hinj eq_refl Hb).
+      apply (f_equal (@length N)) in Hinj. rewrite !firstn_length, L in Hinj. lia. }
     subst k. apply (K4 0 12). unfold word_across. split; [lia|]. split; [vm_compute; auto|]. right. lia.
 Qed.
 Print Assumptions C16_no_break_inside_word_refuted.
